@@ -889,7 +889,7 @@ Verdict run_rot(Case const& c, std::string const& dir)
   RotModel model;
   std::map<std::string, std::string> foreign; // name -> content
   int epoch = 0;
-  uint64_t restarts = 0, writes = 0, restarts_w = 0, dst_ambiguous_pairs = 0;
+  uint64_t restarts = 0, writes = 0, restarts_w = 0, dst_ambiguous_pairs = 0, name_order_undefined = 0;
   bool rotation_may_have_stopped = false;
   // time rotation schedule (reading A: fixed grid, reading B: k periods after the previous trigger) for hourly/minutely
   int hh = 0, mm = 0;
@@ -1091,6 +1091,37 @@ Verdict run_rot(Case const& c, std::string const& dir)
     {
       if (seq[i] <= seq[i - 1])
       {
+        if (!gmt && naming >= 1 && seq[i] < model.st.size() && seq[i - 1] < model.st.size())
+        {
+          // Names built from LOCAL date / time repeat when the clock is set back: a file opened at 02:06 (before the change)
+          // and one opened at 02:00 (after it) sort the wrong way round, and nothing in a local-time name can tell them apart.
+          // "As the naming scheme orders them" is undefined for such a pair: not judged.
+          int64_t lo = std::min(model.st[seq[i]].ts, model.st[seq[i - 1]].ts) / 1000000000ll - 7200;
+          int64_t hi = std::max(model.st[seq[i]].ts, model.st[seq[i - 1]].ts) / 1000000000ll + 7200;
+          bool set_back = false;
+          if (hi - lo < 40 * 86400)
+          {
+            auto off = [](int64_t t)
+            {
+              time_t tt = static_cast<time_t>(t);
+              tm l;
+              localtime_r(&tt, &l);
+              return static_cast<int64_t>(l.tm_gmtoff);
+            };
+            int64_t prev = off(lo);
+            for (int64_t t = lo + 900; t <= hi && !set_back; t += 900)
+            {
+              int64_t cur = off(t);
+              set_back = cur < prev;
+              prev = cur;
+            }
+          }
+          if (set_back)
+          {
+            ++name_order_undefined;
+            continue;
+          }
+        }
         return viol("statements_out_of_order_across_files",
                     "reading the files oldest to newest gives statement " + std::to_string(seq[i - 1]) + " ('" + where[seq[i - 1]] +
                       "') before " + std::to_string(seq[i]) + " ('" + where[seq[i]] + "')",
@@ -1354,6 +1385,7 @@ Verdict run_rot(Case const& c, std::string const& dir)
     must_share += d.must == 0;
   }
   v.probes["pairs_spanning_only_an_ambiguous_or_nonexistent_local_time"] = dst_ambiguous_pairs;
+  v.probes["file_pairs_whose_local_time_names_repeat_after_a_clock_set_back"] = name_order_undefined;
   v.probes["pairs_that_must_be_separated"] = must_sep;
   v.probes["pairs_that_must_share_a_file"] = must_share;
   return v;
